@@ -1,4 +1,5 @@
 import SqlObjVerif.Lemmas.GraphTrav
+import SqlObjVerif.Lemmas.GraphXMain
 /-!
 # C12 — destroySelf honours the declared cascade policy over the whole reference graph
 
@@ -288,5 +289,69 @@ example : destroy [⟨[], [⟨2, 0, true⟩]⟩, ⟨[⟨0, .cascade⟩], []⟩, 
     ⟨[⟨0, 1, []⟩, ⟨0, 2, []⟩, ⟨1, 1, [some 1]⟩, ⟨2, 1, [some 1, some 2, some 1]⟩, ⟨2, 2, [none, some 1, some 1]⟩],
      [⟨0, 1, 2⟩, ⟨0, 2, 1⟩, ⟨0, 2, 2⟩], [(0, 1), (2, 2)]⟩ 0 1
     = .ok ⟨[⟨0, 2, []⟩, ⟨2, 2, [none, none, some 1]⟩], [⟨0, 2, 2⟩], [(2, 2)]⟩ := by decide
+
+/-! ### The model is what the source says: the TRANSLATED `destroySelf`
+
+`destroySelfX` runs the program `vlib/extractors/pydestroy.py` translated from `main.py` on this run
+(`Extracted/PyDestroy.lean`) in the reference semantics `Model/PyDestroy.lean`, against the interface stated in the header of
+`Model/GraphX.lean` (what `select`, `count`, `getattr(row, name)`, `row.set`, `syncUpdate`, the link-table DELETE,
+`_SO_delete`, `cache.expire` and the signals do). -/
+
+/-- **C12, translator tie.**  For every schema, every database with ids unique per class, every victim, every
+    `lazyUpdate` assignment and every recursion budget: running the translated `destroySelf` with the recursive call
+    `row.destroySelf()` bound to the model's `destroy` at budget `n` gives exactly the model's `destroy` at budget `n + 1` —
+    the same outcome (normal return / `SQLObjectIntegrityError` / `RecursionError`) and the same rows, link rows and cache,
+    with no pending lazy assignment left. -/
+theorem C12_translated_destroySelf_eq_model (S : Schema) (lz : Nat → Bool) (n : Nat) (db : DB) (c i : Nat) (hwf : db.WF) :
+    destroySelfX S lz (destroy S n) ⟨db, []⟩ c i = resImg (destroy S (n + 1) db c i) :=
+  destroySelfX_eq_model S lz c i n db hwf
+
+/-- … and for ANY meaning of the recursive call that keeps ids unique per class, one run of the translated method is one
+    activation `destroyStep` of the model (the fixed-point equation `destroy S (n+1) = destroyStep S (destroy S n)` holds
+    by definition) -/
+theorem C12_translated_destroySelf_eq_step (S : Schema) (lz : Nat → Bool) (rec : DB → Nat → Nat → Res) (hrec : RecWF rec)
+    (db : DB) (c i : Nat) (hwf : db.WF) :
+    destroySelfX S lz rec ⟨db, []⟩ c i = resImg (destroyStep S rec db c i) :=
+  destroySelfX_eq_step S lz rec c i hrec db hwf
+
+/-- one iteration of the translated loop over the dependent classes is the model's per-class step `procDep` -/
+theorem C12_translated_dependent_step (S : Schema) (lz : Nat → Bool) (rec : DB → Nat → Nat → Res) (c i k : Nat)
+    (db : DB) (env : PyDestroy.Env Hnd) (hwf : db.WF) (h1 : env 1 = some (.obj (.cls c))) :
+    StepOK env (PyDestroy.Block.exec (dIface S lz rec c i) (PyDestroy.St.setVar ⟨⟨db, []⟩, env⟩ 5 (.obj (.cls k)))
+      PyDestroy.Extracted.destroySelf_for1) (procDep S rec c i db k) :=
+  for1_step S lz rec c i k ⟨db, []⟩ env rfl hwf h1
+
+/-- the translated `findDependantColumns(<name of c>, k)` returns the model's `depCols S c k` and changes nothing -/
+theorem C12_translated_findDependantColumns_eq_model (S : Schema) (c k : Nat) :
+    fdcX S c k = .ret ⟨⟨[], [], []⟩, []⟩ (PyDestroy.Val.ofList ((depCols S c k).map fun f => .obj (.col k f))) :=
+  fdcX_eq S c k
+
+/-- the closure postcondition, stated of the translated code: if the translated `destroySelf` (recursion through the model)
+    returns normally, the database it leaves is the old one minus the cascade closure of the victim -/
+theorem C12_translated_destroySelf_spec (S : Schema) (lz : Nat → Bool) (n : Nat) (db : DB) (c i : Nat) (hwf : db.WF)
+    (w' : XW) (v : PVal) (h : destroySelfX S lz (destroy S n) ⟨db, []⟩ c i = .ret w' v) :
+    ClosureDeleted S db c i w'.db ∧ w'.pend = [] := by
+  rw [C12_translated_destroySelf_eq_model S lz n db c i hwf] at h
+  cases hd : destroy S (n + 1) db c i with
+  | ok db' =>
+    rw [hd] at h
+    simp only [resImg, PyDestroy.CallRes.ret.injEq] at h
+    obtain ⟨rfl, _⟩ := h
+    exact ⟨C12_destroy_spec S (n + 1) db db' c i hwf hd, rfl⟩
+  | refused db' => rw [hd] at h; cases h
+  | fuel db' => rw [hd] at h; cases h
+
+/-- non-vacuity: the hypotheses are satisfiable and all three outcomes occur (lazy and eager classes) -/
+example : destroySelfX insS (fun k => k == 3) (destroy insS 4) ⟨insDB, []⟩ 0 1 = .ret ⟨⟨[], [], []⟩, []⟩ .none := by
+  rw [C12_translated_destroySelf_eq_model _ _ _ _ _ _ (by simp [DB.WF, insDB, Row.key])]
+  have h : destroy insS (4 + 1) insDB 0 1 = .ok ⟨[], [], []⟩ := by decide
+  rw [h]; rfl
+example : destroySelfX insS' (fun _ => false) (destroy insS' 4) ⟨insDB, []⟩ 0 1 = .exc ⟨insDB, []⟩ "SQLObjectIntegrityError" := by
+  rw [C12_translated_destroySelf_eq_model _ _ _ _ _ _ (by simp [DB.WF, insDB, Row.key])]
+  have h : destroy insS' (4 + 1) insDB 0 1 = .refused insDB := by decide
+  rw [h]; rfl
+example : destroySelfX cycS (fun _ => true) (destroy cycS 7) ⟨cycDB, []⟩ 0 1 = .exc ⟨cycDB, []⟩ "RecursionError" := by
+  rw [C12_translated_destroySelf_eq_model _ _ _ _ _ _ (by simp [DB.WF, cycDB])]
+  rw [C12_cascade_cycle_diverges]; rfl
 
 end SqlObjVerif.Graph
